@@ -1,6 +1,7 @@
 import GqlgenVerif.Model.Coerce
 import GqlgenVerif.Model.CoerceSpec
 import GqlgenVerif.Lemmas.Coerce
+import GqlgenVerif.Lemmas.CoerceSpec
 import GqlgenVerif.Props.C08
 /-!
 # C02 — resolvers receive arguments exactly as GraphQL input coercion defines (property theorems)
@@ -686,5 +687,82 @@ theorem lenient_string_for_int_witness :
     fieldStep exSchema {} [("x", .str "7")] (argV (.named "Int" false)) [("v", .var "x")] ["f"] = .call [.ptr (.int 7)] ∧
     Spec.coerceVars {} exSchema [⟨"x", .named "Int" false, none⟩] [("x", .str "7")] = .error (some ["variable", "x"]) := by
   refine ⟨by rfl, by rfl, by rfl⟩
+
+
+/-! ## the generated coercion is the specification's coercion -/
+
+/-- **coerce_eq_spec — valid inputs, all type shapes, all configurations.** For every schema (distinct field
+    names, literal defaults, types whose Go shapes fit them), every configuration, every GraphQL type `t` with a
+    fitting Go shape `sh` (scalars of every binding, enums, lists at any depth, struct-backed and map-backed input
+    objects, recursive ones included, with pointers / `Omittable` / slices as the options choose), and every value
+    `v` as the JSON decoder or the literal evaluation produces it: if the specification's input coercion (no
+    deviation switched on) accepts what the client wrote (`ivOf v`), the generated unmarshal code returns exactly
+    the Go embedding of the specification's coerced value — omitted fields as zero / `unset` / missing keys, defaults
+    injected, single values wrapped into lists, `null` as the nil of the shape. -/
+theorem coerce_eq_spec (s : Schema) (c : Cfg) (wf : SchemaWF s c) (f : Nat) (t : Ty) (sh : Sh) (v : Raw)
+    (path : Path) (cv : Spec.CV) (hf : fits s sh t = true) (hc : canon v = true)
+    (hn : v.isNil = true → t.nn = true ∨ sh.nilable = true)
+    (h : Spec.coerce {} s f t (ivOf v) path = .ok cv) :
+    unm s c f t sh v path = .ok (Spec.embed s c f t sh cv) :=
+  agree_all wf f t sh v path cv hf hc hn h
+
+/-- the same for an argument of a field, with the Go parameter type the model derives (`shapeRef`, compared with
+    reflection over the generated package on every run) -/
+theorem coerce_eq_spec_argument (s : Schema) (c : Cfg) (wf : SchemaWF s c) (d : ArgDef) (hty : tyOK s d.ty = true)
+    (v : Raw) (hc : canon v = true) (fp : Path) (cv : Spec.CV)
+    (h : Spec.coerce {} s fuelDefault d.ty (ivOf v) (fp ++ [d.name]) = .ok cv) :
+    unm s c fuelDefault d.ty (shapeRef s c d.ty) v (fp ++ [d.name]) =
+      .ok (Spec.embed s c fuelDefault d.ty (shapeRef s c d.ty) cv) := by
+  refine coerce_eq_spec s c wf _ _ _ v _ cv (shapeRef_fits s c d.ty hty) hc ?_ h
+  intro _
+  cases hnn : d.ty.nn
+  · exact Or.inr (shapeRef_nilable s c d.ty hnn)
+  · exact Or.inl rfl
+
+/-- non-vacuity: the example schema satisfies `SchemaWF` under every configuration … -/
+theorem exSchema_wf (c : Cfg) : SchemaWF exSchema c := by
+  have hget : ∀ n isMap fields, exSchema.get n = some (.input isMap fields) →
+      (n = "In" ∧ isMap = false ∧ fields = [⟨"n", "N", .named "Int" true, none, false⟩, ⟨"o", "O", .named "Int" false, none, false⟩,
+                           ⟨"s", "S", .named "String" false, some (.str "dflt"), false⟩]) ∨
+      (n = "M" ∧ isMap = true ∧ fields = [⟨"a", "", .named "Int" false, none, false⟩]) := by
+    intro n isMap fields h
+    simp only [Schema.get, exSchema, lookup] at h
+    split at h
+    · cases h
+    · split at h
+      · cases h
+      · split at h
+        · cases h
+        · split at h
+          · cases h
+          · split at h
+            · rename_i hn; cases h; exact Or.inl ⟨hn.symm, rfl, rfl⟩
+            · split at h
+              · rename_i hn; cases h; exact Or.inr ⟨hn.symm, rfl, rfl⟩
+              · cases h
+  refine ⟨?_, ?_, ?_⟩
+  · intro n isMap fields h
+    rcases hget n isMap fields h with ⟨_, _, rfl⟩ | ⟨_, _, rfl⟩ <;> decide
+  · intro n isMap fields fd h hfd
+    rcases hget n isMap fields h with ⟨_, _, rfl⟩ | ⟨_, _, rfl⟩
+    all_goals
+      simp at hfd
+      rcases hfd with rfl | rfl | rfl <;>
+        exact ⟨shapeField_fits _ _ _ (by decide), shapeRef_fits _ _ _ (by decide)⟩
+  · intro n isMap fields fd d h hfd hd
+    rcases hget n isMap fields h with ⟨_, _, rfl⟩ | ⟨_, _, rfl⟩
+    all_goals
+      simp at hfd
+      rcases hfd with rfl | rfl | rfl <;> simp at hd <;> subst hd <;> exact ⟨by rfl, by rfl⟩
+
+/-- … and the theorem applies to a nested value with a single-value list, an omitted field with a default, and an
+    explicit null (`{n: 5, o: null}` at `[In!]`, Omittable on) -/
+example :
+    unm exSchema exOm 3 (.list (.named "In" true) false) (shapeRef exSchema exOm (.list (.named "In" true) false))
+      (.obj [("n", .num "5"), ("o", .nil)]) ["f", "v"] =
+    .ok (.slice [.ptr (.struct [("N", .int 5), ("O", .set .nil), ("S", .set (.ptr (.str "dflt")))])]) := by rfl
+example : canon (.obj [("n", .num "5"), ("o", .nil)]) = true ∧
+    fits exSchema (shapeRef exSchema exOm (.list (.named "In" true) false)) (.list (.named "In" true) false) = true := by
+  decide
 
 end GqlgenVerif.Props.C02
